@@ -90,9 +90,12 @@ class Message:
 
         # Parse headers into key/value pairs paying attention
         # to continuation lines.
+        # fields dropped by header_map still count against the limit
+        fields_seen = 0
         while lines:
-            if len(headers) >= self.limit_request_fields:
+            if fields_seen >= self.limit_request_fields:
                 raise LimitRequestHeaders("limit request headers fields")
+            fields_seen += 1
 
             # Parse initial header name: value pair.
             curr = lines.pop(0)
